@@ -9,6 +9,9 @@ import (
 // glog (used by /repo through logw) would write log files into /tmp; send it to
 // "stderr" and point os.Stderr at /dev/null. Runtime panic traces are written to
 // file descriptor 2 directly and still reach the parent.
+// keep the original *os.File reachable: otherwise its finalizer closes fd 2.
+var realStderr = os.Stderr
+
 func TestMain(m *testing.M) {
 	flag.Set("logtostderr", "true")
 	if f, err := os.OpenFile(os.DevNull, os.O_WRONLY, 0); err == nil {
